@@ -160,11 +160,15 @@ func c14Wiring(c *Ctx, p *Prog) {
 	c.Check(okApply, R, "add-after-apply", p.pos(addCall.Pos()), "a result is added only when Filter.Apply on that same result reported matches", "results reach the table builder without (or before) the filter being applied to them: filtered-out measurements are counted")
 	// (b) parser discipline
 	var residue *ssa.Call
-	eachInstr(fn, func(_ *ssa.BasicBlock, in ssa.Instruction) {
-		if call, ok := in.(*ssa.Call); ok && objIs(calleeObj(&call.Call), bprocPkg, "ProjectionParser", "Residue") {
-			residue = call
-		}
-	})
+	addFn := fn
+	for _, f := range p.Funcs("cmd/benchstat") {
+		eachInstr(f, func(_ *ssa.BasicBlock, in ssa.Instruction) {
+			if call, ok := in.(*ssa.Call); ok && objIs(calleeObj(&call.Call), bprocPkg, "ProjectionParser", "Residue") {
+				residue = call
+				fn = f // the function that parses the flags (the results may be added by a helper it calls)
+			}
+		})
+	}
 	if residue == nil {
 		c.Bad(R, "residue-after-flags", p.pos(fn.Pos()), "the command never takes the residue projection: merged results that differ in unprojected keys are not reported")
 	} else {
@@ -258,18 +262,40 @@ func c14Wiring(c *Ctx, p *Prog) {
 	}
 	// (c) units from the scanned Files
 	var scanRecv, unitsRecv ssa.Value
-	eachInstr(fn, func(_ *ssa.BasicBlock, in ssa.Instruction) {
-		if call, ok := in.(*ssa.Call); ok {
-			co := calleeObj(&call.Call)
-			if objIs(co, bfPkg, "Files", "Scan") {
-				scanRecv = call.Call.Args[0]
+	var scanFn, unitsFn *ssa.Function
+	for _, f := range p.Funcs("cmd/benchstat") {
+		eachInstr(f, func(_ *ssa.BasicBlock, in ssa.Instruction) {
+			if call, ok := in.(*ssa.Call); ok {
+				co := calleeObj(&call.Call)
+				if objIs(co, bfPkg, "Files", "Scan") {
+					scanRecv, scanFn = call.Call.Args[0], f
+				}
+				if objIs(co, bfPkg, "Files", "Units") {
+					unitsRecv, unitsFn = call.Call.Args[0], f
+				}
 			}
-			if objIs(co, bfPkg, "Files", "Units") {
-				unitsRecv = call.Call.Args[0]
+		})
+	}
+	sameFiles := scanRecv != nil && scanRecv == unitsRecv
+	if !sameFiles && scanFn != nil && unitsFn != nil && scanFn != unitsFn {
+		// the scan sits in a helper: the Files it scans is its parameter, and the caller that asks for the units
+		// passes the same Files to the helper
+		if prm, ok := scanRecv.(*ssa.Parameter); ok {
+			pi := -1
+			for i, q := range scanFn.Params {
+				if q == prm {
+					pi = i
+				}
 			}
+			eachInstr(unitsFn, func(_ *ssa.BasicBlock, in ssa.Instruction) {
+				if call, ok := in.(*ssa.Call); ok && call.Call.StaticCallee() == scanFn && pi >= 0 && pi < len(call.Call.Args) && call.Call.Args[pi] == unitsRecv {
+					sameFiles = true
+				}
+			})
 		}
-	})
-	c.Check(scanRecv != nil && scanRecv == unitsRecv, R, "units-from-scanned-files", p.pos(fn.Pos()), "ToTables receives the unit metadata of the Files that was scanned", "the unit metadata handed to ToTables does not come from the Files whose results were added: units' assumptions and labels are lost")
+	}
+	_ = addFn
+	c.Check(sameFiles, R, "units-from-scanned-files", p.pos(fn.Pos()), "ToTables receives the unit metadata of the Files that was scanned", "the unit metadata handed to ToTables does not come from the Files whose results were added: units' assumptions and labels are lost")
 }
 
 func c14Add(c *Ctx, p *Prog, R string) {
